@@ -260,6 +260,85 @@ def c03_replay(ctx: Any, case: Dict[str, Any]) -> None:
 # ---------------------------------------------------------------------------------------------------------
 
 
+def _c04_one(ctx: Any, case: Dict[str, Any], name: str) -> None:
+    """Proceeds / Cost Basis / Gain columns of the Gain / Loss Detail table and of tax_report_us.ods of a real run vs the
+    exact rational values derived from the spreadsheet rows (doubles: 1e-12 relative)."""
+    from rpv.oracle.trace import ExactStats, check_exact
+
+    ws = Workspace(ctx.scratch, name)
+    try:
+        hists = case["hists"]
+        res = _run(ctx, ws, hists, "us", case["args"], None)
+        ctx.count("executions")
+        ctx.count("cli_runs")
+        if res.exit != 0:
+            ctx.count("unobservable")
+            ctx.tag("tag_unobservable", f"cli exit {res.exit}: {res.stderr[-120:]}")
+            return
+        report = _full_report(res, case)
+        tax_path = res.report("tax_report_us")
+        if report is None or tax_path is None:
+            ctx.violation("cli.report-missing", {"files": res.files}, case)
+            return
+        tax_rows = tax_report_rows(tax_path)
+        rel = Fraction(1, 10**12)
+        for asset, hist in hists.items():
+            model = Model(hist)
+            trace, problems = decode_trace(report, asset, model)
+            for p in problems:
+                ctx.violation("cli.detail-table-undecodable", {"problem": p}, case)
+            stats = ExactStats()
+            for v in check_exact(model, trace, stats, rel=rel):
+                ctx.violation(v["rule"], dict(v["detail"], observed_at="Gain / Loss Detail of the CLI report"), case)
+            ctx.count("cli_fractions", stats.fractions)
+            if any(r["t"] == "IN" and r.get("cfee") and (r.get("fin_nf") or r.get("fin_wf")) for r in hist["rows"]):
+                ctx.count("cli_lots_with_crypto_fee_and_supplied_fiat")
+            # tax_report_us rows: same figures, located through the unique ids
+            by_uid = {(e.uid, e.table): row for row, e in model.events.items()}
+            lot_by_uid = {lot.uid: row for row, lot in model.lots.items()}
+            for rows in tax_rows.values():
+                for r in rows:
+                    if r.get("asset") != asset or r.get("after_gap"):
+                        continue
+                    event_row = by_uid.get((str(r["event_uid"]), str(r["dir_type"]).split(" / ")[0]))
+                    if event_row is None:
+                        continue
+                    event = model.events[event_row]
+                    amount = snap(r["amount"]) or Fraction(0)
+                    exp_proceeds = event.taxable_fiat * amount / event.amount
+                    exp_cost = Fraction(0)
+                    if r.get("lot_uid") not in (None, "") and str(r["lot_uid"]) in lot_by_uid:
+                        lot = model.lots[lot_by_uid[str(r["lot_uid"])]]
+                        exp_cost = lot.fiat_in_with_fee * amount / lot.amount
+                    scale = max(abs(exp_proceeds), abs(exp_cost))
+                    for field, exp in (("proceeds", exp_proceeds), ("cost", exp_cost), ("gain", exp_proceeds - exp_cost)):
+                        got = num(r[field]) or Fraction(0)
+                        if abs(got - exp) > rel * scale:
+                            ctx.violation(f"exact.cli-tax-report-{field}", {"asset": asset, "event_uid": r["event_uid"], "lot_uid": r.get("lot_uid"), "shown": float(got), "expected": float(exp)}, case)
+                    ctx.count("cli_tax_report_rows")
+    finally:
+        ws.cleanup()
+
+
+def c04(ctx: Any, total: int) -> None:
+    share = ctx.share(total)
+    for i in range(share):
+        if ctx.time_left() < 3:
+            break
+        index = ctx.shard + i * ctx.nshards
+        rng = ctx.rng("cli", index)
+        profile = cli_profile(p_optional_fiat=0.6, p_inconsistent_fiat=0.8, p_in_fiat_fee=0.4, p_out_crypto_fee=0.6, p_earn=0.3, max_events=14, min_events=5, mixed_tz=rng.random() < 0.3)
+        hists = cli_histories(rng, rng.choice((1, 2)), profile)
+        _c04_one(ctx, _case(hists, "us", ["-m", rng.choice(METHODS)], None), f"c04-{index}")
+
+
+def c04_replay(ctx: Any, case: Dict[str, Any]) -> None:
+    _c04_one(ctx, case, "replay")
+
+
+# ---------------------------------------------------------------------------------------------------------
+
+
 def _c05_one(ctx: Any, case: Dict[str, Any], name: str) -> None:
     ws = Workspace(ctx.scratch, name)
     try:
@@ -554,6 +633,11 @@ def c08(ctx: Any, total: int) -> None:
                 hists = dict(hists, **{asset: rng.choice(ms)})
             if i % 3 == 2:
                 args.append("-n")
+        if "-n" not in args and rng.random() < 0.5:
+            # a from-date never changes the verdict (balances cover all history up to the to-date)
+            days = sorted({parse_ts(r["ts"]).date() for h in hists.values() for r in h["rows"]})
+            args += ["-f", rng.choice((days[len(days) // 2], days[-1], days[-1] + timedelta(days=1))).isoformat()]
+            ctx.count("cli_runs_with_from_date")
         _c08_one(ctx, _case(hists, "us", args, None), f"c08-{index}")
 
 
